@@ -5,7 +5,7 @@ EXTENDS HMSModel
 Lv(e, p, g, lsc, n) == [eng |-> e, pop |-> p, gens |-> g, lsc |-> lsc, lscn |-> n]
 Cf(name, lv, limit, hib, gsc, n, w) ==
     [name |-> name, nlevels |-> Len(lv), levels |-> lv, limit |-> limit, hib |-> hib,
-     gsc |-> gsc, gscn |-> n, gscw |-> w, localmethod |-> 0]
+     gsc |-> gsc, gscn |-> n, gscw |-> w, localmethod |-> 0, budget |-> NoLimit]
 
 \* --- scripted (free) stop conditions: every position at which the global condition can first turn true,
 \*     every deme whose local condition fires in every metaepoch
@@ -50,5 +50,15 @@ LocalMethodConfigs ==
           <<Lv("SEA", 1, 1, "DontStop", 0), Lv("DE", 1, 1, "MetaepochLimit", n), Lv("LOCAL", 0, 1, "DontStop", 0)>>,
           2, h, "MetaepochLimit", 4, <<1, 1, 1>>) EXCEPT !.localmethod = 1] : h \in {0, 1}, n \in {1, 2} }
 
-QuickConfigs == ScriptedConfigs \cup ShippedConfigs \cup LocalMethodConfigs
+\* --- evaluation budgets as minimize(maxfun=N) sets them up (hms.py:59-64): one cutoff wrapper shared by all
+\*     levels and SingularProblemEvalLimitReached(N); populations of 2 so that a budget can end inside a batch
+BudgetConfigs ==
+    { [Cf("BG" \o ToString(n) \o ToString(h),
+          <<Lv("SEA", 2, 2, "DontStop", 0), Lv("CMA", 2, 2, "Scripted", 0)>>,
+          2, h, "SingularEvalLimit", n, <<1, 1>>) EXCEPT !.budget = n] : n \in 1..9, h \in {0, 1} }
+    \cup { [Cf("BM" \o ToString(n),
+          <<Lv("DE", 2, 1, "DontStop", 0), Lv("LOCAL", 0, 1, "DontStop", 0)>>,
+          2, 0, "MetaepochLimit", 3, <<1, 1>>) EXCEPT !.budget = n] : n \in 0..6 }
+
+QuickConfigs == ScriptedConfigs \cup ShippedConfigs \cup LocalMethodConfigs \cup BudgetConfigs
 =============================================================================
